@@ -45,6 +45,7 @@ var c01genKinds = []struct {
 	{"MM", reflect.TypeOf(map[string]map[string]int8(nil)), ""}, // map of maps
 	{"TUr", reflect.TypeOf(c01TUrefs{}), ""},                // text-unmarshalable struct with reference fields
 	{"KeepM", reflect.TypeOf(map[string]int8(nil)), `dials:"-"`}, // exported, unmanaged, reference-bearing
+	{"Mark", reflect.TypeOf(struct{}{}), ""}, // a zero-field marker struct
 	{"PCh", reflect.TypeOf((*chan int)(nil)), ""},                 // user-declared pointer to a channel (kept by ptrify, skipped by overlay?)
 }
 
